@@ -196,6 +196,20 @@ func init() {
 						}
 					}
 				}
+				// (b2') the host of a network-path reference resolved against a special base is a special URL's host too
+				if want, ok, decided := expectSpecialHost(d, h); decided && !strings.ContainsAny(h, "/\\?#@:[] \t\n\r") && h != "" && (i < total/8 || i >= total) && i%2 == 0 {
+					for _, b := range []string{"https://base.example/d/f?q#f", "ftp://1.2.3.4/"} {
+						bb := b
+						in := "//" + h + "/x"
+						io := c.cmpParse(d, defaultCfg, &bb, in, allButVerrs, true, "ipv4-api:reference", i)
+						cs4 := Case{Kind: "parse", Cfg: defaultCfg.Desc, Base: &bb, Input: in, Family: "ipv4-api:reference", Index: i}
+						if ok != (io.Kind == "U") {
+							c.Report(Finding{Class: "violation", What: fmt.Sprintf("host %q of a network-path reference against %s: implementation %s, the standard %s", h, b, io.String(), map[bool]string{true: "accepts it as " + want, false: "rejects it"}[ok]), Case: cs4})
+						} else if ok && io.Fields[fHostname] != want {
+							c.Report(Finding{Class: "violation", What: fmt.Sprintf("host %q of a network-path reference against %s serializes as %q, the standard's result is %q", h, b, io.Fields[fHostname], want), Case: cs4})
+						}
+					}
+				}
 				// (b3) every special scheme is one: schemes added by WithSpecialSchemes (whatever the length of their names), and
 				// the gopher scheme of the Semantic profile; (b4) the host setters are a route to a special URL's host too
 				if want, ok, decided := expectSpecialHost(d, h); decided && !strings.ContainsAny(h, "/\\?#@:[] \t\n\r") && (i < total/8 || i >= total) {
@@ -404,6 +418,17 @@ func init() {
 						io := c.cmpParse(d, defaultCfg, nil, in, allButVerrs, true, "ipv6-api", i)
 						if (io.Kind == "U") != (want != "fail") || io.Kind == "U" && io.Fields[fHostname] != "["+unhx(strings.Fields(want)[1])+"]" {
 							c.Report(Finding{Class: "violation", What: fmt.Sprintf("%s: implementation %s, the standard: %s", in, io.String(), descSpec(want)), Case: Case{Kind: "parse", Input: in, Family: "ipv6-api", Index: i}})
+						}
+					}
+					// ... as the host of a network-path reference, against a special and a non-special base
+					if i%4 == 1 || i >= total+totalBr+nr {
+						for _, b := range []string{"https://base.example/d/f?q#f", "sc://base/d"} {
+							bb := b
+							in := "//" + host + "/p"
+							io := c.cmpParse(d, defaultCfg, &bb, in, allButVerrs, true, "ipv6-reference", i)
+							if (io.Kind == "U") != (want != "fail") || io.Kind == "U" && io.Fields[fHostname] != "["+unhx(strings.Fields(want)[1])+"]" {
+								c.Report(Finding{Class: "violation", What: fmt.Sprintf("%s against %s: implementation %s, the standard: %s", in, b, io.String(), descSpec(want)), Case: Case{Kind: "parse", Base: &bb, Input: in, Family: "ipv6-reference", Index: i}})
+							}
 						}
 					}
 					// ... and through every predefined profile and repeated decoding: canonicalization never touches an address
